@@ -350,7 +350,7 @@ class CanCWriter:
             messages = self.device_messages.get(device_name, [])
 
             yield (
-                device_name,
+                pascal_to_snake(device_name),
                 self.templates["device_can_h"].render(
                     device_name_pascal=snake_to_pascal(device_name),
                     device_name_snake=pascal_to_snake(device_name),
